@@ -8,6 +8,7 @@ from contracts import py_bz as BZ
 def build(run):
     PG.gridpoints_spglib_call(run)
     PG.shift2boolean_contract(run)
+    PG.extract_ir_grid_points_contract(run)
     PA.init_mesh_args(run)
     PG.meshbase_gridpoints_call(run)
     BZ.brillouin_zone(run)
